@@ -12,6 +12,8 @@ Purely syntactic (Python `ast`).  What it recognises:
   which `_get_*` helper a `get_*` calls (and the constant class it passes);
 * in `update_*`: is a `for`-loop variable rebound (`cls = cls.lower()`) and then used to index the argument dictionary again
   (`rates[cls][element][charge][transition]`)?  (`pecReindexes`; any other family doing so is reported in `notes`);
+* `utility.encode_transition`: the chain of calls applied to each of the two levels (expected: `str`, `lower` — anything
+  else, e.g. `strip`, `replace`, shows up in `encodeUpper` / `encodeLower`) and the format string joining them;
 * for every `install_*`: the `repository.update_*` calls in source order and whether `repository_path` reaches them;
 * every other call of a function that has a `repository_path` parameter: does the caller pass its own on?
 """
@@ -222,6 +224,68 @@ def _reindexes(fn):
     return False
 
 
+def _chain(expr, var):
+    """`str(var).lower()` -> ['str', 'lower'];  `var.strip().lower()` -> ['strip', 'lower'];  None if not a chain on var"""
+    if isinstance(expr, ast.Name):
+        return [] if expr.id == var else None
+    if isinstance(expr, ast.Call):
+        if isinstance(expr.func, ast.Name) and len(expr.args) == 1 and not expr.keywords:
+            inner = _chain(expr.args[0], var)
+            return None if inner is None else inner + [expr.func.id]
+        if isinstance(expr.func, ast.Attribute):
+            inner = _chain(expr.func.value, var)
+            if inner is None:
+                return None
+            name = expr.func.attr
+            if expr.args or expr.keywords:
+                name += '(' + ', '.join([ast.unparse(a) for a in expr.args] + [ast.unparse(k) for k in expr.keywords]) + ')'
+            return inner + [name]
+    return None
+
+
+def _encode_facts(fn, notes):
+    """what encode_transition does to its two levels, and the string it joins them with"""
+    out = dict(upper=['?'], lower=['?'], fmt='?')
+    if fn is None:
+        notes.append('missing function encode_transition')
+        return out
+    names = None
+    for n in fn.body:
+        if isinstance(n, ast.Assign) and isinstance(n.targets[0], ast.Tuple) and isinstance(n.value, ast.Name) \
+                and fn.args.args and n.value.id == fn.args.args[0].arg and len(n.targets[0].elts) == 2:
+            names = [e.id for e in n.targets[0].elts if isinstance(e, ast.Name)]
+    if not names or len(names) != 2:
+        notes.append('encode_transition: the transition is not unpacked into two names')
+        return out
+    chains = {names[0]: [], names[1]: []}
+    for n in ast.walk(fn):
+        if isinstance(n, (ast.AugAssign, ast.AnnAssign)) or (isinstance(n, ast.Assign) and not (
+                len(n.targets) == 1 and (isinstance(n.targets[0], ast.Tuple) or (isinstance(n.targets[0], ast.Name))))):
+            notes.append('encode_transition: unrecognised statement ' + ast.unparse(n))
+            return out
+    for n in fn.body:
+        if isinstance(n, ast.Assign) and isinstance(n.targets[0], ast.Name) and n.targets[0].id in chains:
+            c = _chain(n.value, n.targets[0].id)
+            chains[n.targets[0].id] = (chains[n.targets[0].id] + c) if c is not None else ['?' + ast.unparse(n.value)]
+        elif isinstance(n, ast.Return):
+            v = n.value
+            if (isinstance(v, ast.Call) and isinstance(v.func, ast.Attribute) and v.func.attr == 'format'
+                    and isinstance(v.func.value, ast.Constant) and isinstance(v.func.value.value, str)
+                    and [ast.unparse(a) for a in v.args] == names and not v.keywords):
+                out['fmt'] = v.func.value.value
+            else:
+                out['fmt'] = '?' + ast.unparse(v)
+        elif isinstance(n, (ast.Expr,)) and isinstance(n.value, ast.Constant):
+            pass                                    # docstring
+        elif isinstance(n, ast.Assign) and isinstance(n.targets[0], ast.Tuple):
+            pass                                    # the unpacking
+        else:
+            notes.append('encode_transition: unrecognised statement ' + ast.unparse(n)[:60])
+            out['fmt'] = '?'
+    out['upper'], out['lower'] = chains[names[0]], chains[names[1]]
+    return out
+
+
 def _passes_root(call, defs):
     """does `call` hand the caller's `repository_path` to the callee's `repository_path` parameter?"""
     name = _callee_name(call)
@@ -243,7 +307,7 @@ def extract(repo=REPO):
     notes = []
     defs = {}
     trees = {}
-    for rel in REPOSITORY_FILES + FRONT_FILES:
+    for rel in REPOSITORY_FILES + FRONT_FILES + ['repository/utility.py']:
         p = os.path.join(base, rel)
         if not os.path.exists(p):
             notes.append('missing file ' + rel)
@@ -348,6 +412,7 @@ def extract(repo=REPO):
             continue
         for c in calls_in(fn):
             facts['frontCalls'].append((name, _callee_name(c), _passes_root(c, defs)))
+    facts['encode'] = _encode_facts(defs.get('encode_transition'), notes)
     # de-duplicate (install_files calls each install_* once per branch)
     seen = []
     for fc in facts['frontCalls']:
@@ -396,7 +461,9 @@ def to_lean(f):
                  ',\n   '.join('(%s, %s, %s)' % (_s(a), _s(b), 'true' if c else 'false') for a, b, c in f['frontCalls']))
     parts.append('def tables : Tables :=\n  { updWrites := updWrites, updCalls := updCalls, addWrites := addWrites, addCalls := addCalls,\n'
                  '    addFixed := addFixed, getReads := getReads, getFixed := getFixed, installCalls := installCalls,\n'
-                 '    frontCalls := frontCalls, pecReindexes := %s }' % ('true' if f['pecReindexes'] else 'false'))
+                 '    frontCalls := frontCalls, pecReindexes := %s,\n    encodeUpper := [%s], encodeLower := [%s], encodeFormat := %s }'
+                 % ('true' if f['pecReindexes'] else 'false', ', '.join(_s(x) for x in f['encode']['upper']),
+                    ', '.join(_s(x) for x in f['encode']['lower']), _s(f['encode']['fmt'])))
     parts.append('end Cherab.Gen.RepoPaths\n')
     return '\n\n'.join(p for p in parts if p != '')
 
